@@ -139,4 +139,84 @@ theorem globalLoop_spec (beh : Beh) (st : St) (w : WF st) :
   simp only [filter_nil_dels, List.append_nil] at sp
   exact sp
 
+/-! ### due ⇒ fired -/
+
+theorem delsT_exact {c fn : Nat} {a : Act} (h : fn ∈ delsT c a) : a = .delTimed c fn := by
+  cases a <;> simp only [delsT] at h <;> try (cases h)
+  split at h
+  · simp at h; subst h; rename_i hc; subst hc; rfl
+  · cases h
+
+theorem delsG_exact {fn : Nat} {a : Act} (h : fn ∈ delsG a) : a = .delGlobal fn := by
+  cases a <;> simp_all [delsG]
+
+theorem due_mono {now t : Nat} {it : Item} (h : due now it = true) (ht : now ≤ t) : due t it = true := by
+  simp only [due, decide_eq_true_eq] at *
+  exact Nat.le_trans h (Nat.sub_le_sub_right ht _)
+
+theorem mem_delsOf' {L : Cfg} {fn : Nat} {acts : List Act} (h : fn ∈ L.delsOf acts) : ∃ a ∈ acts, fn ∈ L.dels a := by
+  simpa [Cfg.delsOf] using h
+
+/-- a connection's timed handler that is due when the connection's turn comes (connected; user
+    handlers: negotiated) is invoked in this pass, unless a callback invoked earlier in the pass
+    deleted its callback function -/
+theorem timed_due_fires (beh : Beh) (st : St) (c : Nat) (w : WF st) (it : Item)
+    (hit : it ∈ (st.conns c).timed) (hc : (st.conns c).connected = true)
+    (hg : it.user = true → (st.conns c).negotiated = true) (hd : st.now - it.last ≥ it.period)
+    (st' : St) (h : fireTimedConn beh st c = .ok st') :
+    ∃ L, st'.log = st.log ++ L ∧
+      ((∃ v ∈ L, v.uid = it.uid ∧ v.cls = .timed ∧ v.conn = c ∧ st.now ≤ v.time) ∨
+       (∃ v ∈ L, ∃ n, Act.delTimed c it.fn ∈ (beh ⟨v.fn, v.ud⟩ n).acts)) := by
+  have sp := fireTimedConn_spec beh st c w hc
+  rw [h] at sp
+  obtain ⟨hlog, _⟩ := sp
+  refine ⟨_, hlog, ?_⟩
+  have hx : ({ it with enabled := true } : Item) ∈ enableAll (st.conns c).timed :=
+    List.mem_map.mpr ⟨it, hit, rfl⟩
+  have hp : ∀ t, st.now ≤ t → (cfgT c (st.conns c).negotiated).pred t { it with enabled := true } = true := by
+    intro t ht
+    show (gateOpen _ { it with enabled := true } && due t { it with enabled := true }) = true
+    rw [Bool.and_eq_true]
+    refine ⟨(gateOpen_enabled_iff _ it).mpr hg, due_mono ?_ ht⟩
+    simpa [due] using hd
+  rcases gwalk_complete beh (cfgT c (st.conns c).negotiated) _ st.cnt st.now [] _ hx (by simp) hp with
+    ⟨f, hf, e⟩ | ⟨f, hf, e⟩
+  · left
+    obtain ⟨_, _, _, ht⟩ := gwalk_mem _ _ _ _ _ _ _ hf
+    exact ⟨_, List.mem_map.mpr ⟨f, hf, rfl⟩, by simp [Cfg.toInv, e], rfl, rfl, ht⟩
+  · right
+    obtain ⟨_, ⟨n, hn⟩, _, _⟩ := gwalk_mem _ _ _ _ _ _ _ hf
+    obtain ⟨a, ha, hfa⟩ := mem_delsOf' e
+    have := delsT_exact hfa
+    subst this
+    exact ⟨_, List.mem_map.mpr ⟨f, hf, rfl⟩, n, by rw [hn] at ha; exact ha⟩
+
+/-- a context-wide timed handler that is due when the context-wide pass starts is invoked in it,
+    whatever the state of any connection, unless a callback invoked earlier in the pass deleted its
+    callback function -/
+theorem global_due_fires (beh : Beh) (st : St) (w : WF st) (it : Item)
+    (hit : it ∈ st.gtimed) (hd : st.now - it.last ≥ it.period)
+    (st' : St) (h : globalLoop beh st.gtimed.length st st.gtimed = .ok st') :
+    ∃ L, st'.log = st.log ++ L ∧
+      ((∃ v ∈ L, v.uid = it.uid ∧ v.cls = .global ∧ st.now ≤ v.time) ∨
+       (∃ v ∈ L, ∃ n, Act.delGlobal it.fn ∈ (beh ⟨v.fn, v.ud⟩ n).acts)) := by
+  have sp := globalLoop_spec beh st w
+  rw [h] at sp
+  obtain ⟨hlog, _⟩ := sp
+  refine ⟨_, hlog, ?_⟩
+  have hp : ∀ t, st.now ≤ t → cfgG.pred t it = true := by
+    intro t ht
+    show due t it = true
+    exact due_mono (by simpa [due] using hd) ht
+  rcases gwalk_complete beh cfgG _ st.cnt st.now [] _ hit (by simp) hp with ⟨f, hf, e⟩ | ⟨f, hf, e⟩
+  · left
+    obtain ⟨_, _, _, ht⟩ := gwalk_mem _ _ _ _ _ _ _ hf
+    exact ⟨_, List.mem_map.mpr ⟨f, hf, rfl⟩, by simp [Cfg.toInv, e], rfl, ht⟩
+  · right
+    obtain ⟨_, ⟨n, hn⟩, _, _⟩ := gwalk_mem _ _ _ _ _ _ _ hf
+    obtain ⟨a, ha, hfa⟩ := mem_delsOf' e
+    have := delsG_exact hfa
+    subst this
+    exact ⟨_, List.mem_map.mpr ⟨f, hf, rfl⟩, n, by rw [hn] at ha; exact ha⟩
+
 end Strophe.Lemmas.Handler
